@@ -692,6 +692,11 @@ func (env *SpecEnv) call(x *SCall) Val {
 					env.fail("has() needs a map")
 				}
 				return ex.mapHasPure(env.st, m, k, mt)
+			case "single":
+				// single(x): the set containing exactly x
+				v := env.nopol().eval(x.Args[0])
+				ss := ex.w.setSort(v.S)
+				return Val{T: sStore(fmt.Sprintf("((as const %s) false)", ss.Name), v.T, "true"), S: ss}
 			case "domof":
 				m := env.nopol().eval(x.Args[0])
 				mt, ok := goMapType(m.Go)
@@ -840,7 +845,7 @@ func (env *SpecEnv) fieldOf(base Val, name string) Val {
 	}
 	// ghost field
 	if g, key, gs, gty := env.ghostField(base.Go, name); g != nil {
-		a := ex.heapGet(env.st, key, ex.w.mapGSort(sRef, gs))
+		a := ex.heapGet(env.st, key, ex.w.mapGSort(sRef, gs), gty)
 		return Val{T: sSel(a, base.T), S: gs, Go: gty}
 	}
 	_ = n
@@ -1099,7 +1104,8 @@ func (ex *Exec) loadStructPure(st *State, ref string, ty types.Type) Val {
 
 func (ex *Exec) loadElemPure(st *State, sl Val, idx string) Val {
 	m := ex.heapGet(st, ex.memKey(sl.S.Elem), ex.w.memSort(sl.S.Elem), elemGoType(sl.Go))
-	return Val{T: sSel(sSel(m, fmt.Sprintf("(s_arr %s)", sl.T)), fmt.Sprintf("(+ (s_off %s) %s)", sl.T, idx)), S: sl.S.Elem, Go: elemGoType(sl.Go)}
+	arr, raw := elemAddr(sl.T, idx)
+	return Val{T: sSel(sSel(m, arr), raw), S: sl.S.Elem, Go: elemGoType(sl.Go)}
 }
 
 // ---------- modifies / frames ----------
@@ -1283,12 +1289,19 @@ func (ex *Exec) frameCond(pre, post *State, key string, s *Sort, targets []modTa
 	if allocA != allocB {
 		guard = sOr(sSel(allocA, "r"), sNot(sSel(allocB, "r")))
 	}
-	if idxSort == "ArrId" {
-		// backing arrays of array-typed fields exist whenever their owner does
+	if idxSort == "ArrId" && len(ex.w.arrOfFns) > 0 {
+		// the backing array of an array-typed field is as old as the object that owns it
+		oa, ob := ex.allocArr(pre), ex.allocArr(post)
+		var owned, ownedOK []string
 		for _, fn := range ex.w.arrOfFns {
 			inv := strings.Replace(fn, "arrof_", "arrof_inv_", 1)
-			guard = sOr(guard, sAnd(sEq(sApp(fn, sApp(inv, "r")), "r"), sSel(ex.allocArr(pre), sApp(inv, "r"))))
+			is := sEq(sApp(fn, sApp(inv, "r")), "r")
+			owned = append(owned, is)
+			if oa != ob {
+				ownedOK = append(ownedOK, sImp(is, sOr(sSel(oa, sApp(inv, "r")), sNot(sSel(ob, sApp(inv, "r"))))))
+			}
 		}
+		guard = sAnd(append(ownedOK, sImp(sNot(sOr(owned...)), guard))...)
 	}
 	return fmt.Sprintf("(forall ((r %s)) (! (=> %s (= (select %s r) (select %s r))) :pattern ((select %s r))))",
 		idxSort, sAnd(append([]string{guard}, excl...)...), a1, a0, a1)
@@ -1517,4 +1530,24 @@ func (env *SpecEnv) resolveForeign(s string) types.Type {
 		ty = types.NewPointer(ty)
 	}
 	return ty
+}
+
+// ghostMapUpdate: the ghost field of every object c takes the value EXPR(c), evaluated in the
+// current state.
+func (env *SpecEnv) ghostMapUpdate(g *GhostMap) {
+	ex := env.ex
+	ty, s := env.resolveType(g.Type)
+	gf, key, gs, _ := env.ghostField(ty, g.Field)
+	if gf == nil {
+		env.fail("ghostmap: no ghost field %s on %s", g.Field, g.Type)
+	}
+	c := env.child()
+	n := fmt.Sprintf("gm_%s_%d", g.Var, ex.qcounter())
+	c.bind[g.Var] = Val{T: n, S: s, Go: ty}
+	body := c.eval(g.RHS)
+	as := ex.w.mapGSort(sRef, gs)
+	ex.heapGet(env.st, key, as)
+	arr := ex.w.freshConst("gmap_"+g.Field, as)
+	env.st.assume(fmt.Sprintf("(forall ((%s Ref)) (! (= (select %s %s) %s) :pattern ((select %s %s))))", n, arr, n, body.T, arr, n))
+	env.st.heap[key] = arr
 }
